@@ -205,7 +205,19 @@ def run(ctx):
     priv = prog.helper_closure({mt.name}, OV)
     parts = [g for g in prog.reachable_fns([mt]) if g.file == OV and g.name in priv]
     has_ferror = any(m["k"] == "CallExpr" and m.get("callee") == "ferror" for g in parts for m in g.nodes)
-    fopen_w = set()
+    # which fclose closes the stream opened for writing: by data flow (the FILE* of the fopen whose mode has a
+    # 'w'), not by the variable's name
+    fclose_mode = {}
+
+    def s_fopen(ex_, st, args, f_, e):
+        mode = args[1][1] if len(args) > 1 and args[1][0] == "str" else "?"
+        return [(PTR("FILE:" + mode), {})]
+
+    def oc_fclose(ex_, st, f_, e, cal, args):
+        if cal == "fclose" and args and args[0][0] == "ptr" and str(args[0][1]).startswith("FILE:"):
+            fclose_mode.setdefault((f_.key, e), set()).add(args[0][1][5:])
+    exm = absint.Explorer(prog, effects=eff, summaries={"fopen": s_fopen}, on_call=oc_fclose, loop_bound=2, max_paths=30000)
+    exm.run(mt, [TOP] * len(mt.params), {})
     for g in parts:
         for node in g.calls():
             cal = g.nodes[node].get("callee")
@@ -214,8 +226,9 @@ def run(ctx):
             if cal == "fclose":
                 # only the output stream matters for the data: the stream is identified by what fclose is
                 # given on the path, see below (the source stream's fclose is a frozen best-effort exception)
-                arg = g.src(g.nodes[node]["args"][0])
-                if "out" not in arg and "dst" not in arg:
+                modes = fclose_mode.get((g.key, node), set())
+                ctx.need(modes, "cannot tell which stream the fclose at %s closes" % g.loc(node))
+                if not any("w" in m_ or "a" in m_ for m_ in modes):
                     continue
             kind = copy_ops[cal][0]
             extra = {"ferror": [INT(1)]} if cal == "fread" else None
